@@ -51,6 +51,9 @@ type replGen struct {
 	ghostK   []string // constants only rejected inputs tried to define
 	mixins   []string // accepted mixins (each has a method mx<name>: Int)
 	mixed    []string // "Class:mixin method" pairs of classes that include a mixin
+	parents  []string // classes with a method `who: Int` that have (or may get) subclasses
+	subs     []string // "Parent:Child" pairs, the child overrides who
+	ghostUse []string // methods a rejected input tried to import with using
 }
 
 func (g *replGen) fresh(prefix string) string {
@@ -91,16 +94,56 @@ var replThemes = map[string][]int{
 	"closures": {12, 13, 44, 44, 45, 45, 46, 46, 15, 16, 19, 20, 28},
 	"typedefs": {47, 47, 48, 48, 49, 49, 50, 50, 51, 10, 17, 18},
 	"mixins":   {52, 53, 53, 54, 54, 55, 55, 24, 25, 26, 28, 17},
+	"inherit":  {56, 56, 57, 57, 58, 58, 24, 25, 26, 27, 28, 17},
+	"rejusing": {39, 39, 59, 59, 60, 60, 40, 42, 17},
 }
 
 func (g *replGen) next() string {
 	pool := g.pool
 	if len(pool) == 0 {
-		for k := 0; k < 56; k++ {
+		for k := 0; k < 61; k++ {
 			pool = append(pool, k)
 		}
 	}
 	switch k := pool[g.r.Intn(len(pool))]; {
+	case k == 56:
+		// a parent class and a function that calls a method through a parent-typed parameter
+		pc := g.fresh("Kp")
+		g.parents = append(g.parents, pc)
+		return fmt.Sprintf("class %s\n  def who: Int\n    %d\n  end\nend\ndef who_of_%s(x: %s): Int\n  x.who\nend", pc, g.r.Range(1, 9), strings.ToLower(pc), pc)
+	case k == 57:
+		if len(g.parents) > 0 {
+			pc := Pick(g.r, g.parents)
+			cc := g.fresh("Kq")
+			g.subs = append(g.subs, pc+":"+cc)
+			return fmt.Sprintf("class %s < %s\n  def who: Int\n    %d\n  end\nend", cc, pc, g.r.Range(10, 99))
+		}
+		return fmt.Sprintf("println \"T:%d:lit\"", g.n)
+	case k == 58:
+		// dynamic dispatch through the parent type must reach the override of the subclass
+		if len(g.subs) > 0 {
+			pr := strings.SplitN(Pick(g.r, g.subs), ":", 2)
+			if g.r.Bool() {
+				// a caller compiled now (after whatever inputs were rejected in between)
+				return fmt.Sprintf("def late_who%d(x: %s): Int\n  x.who\nend\nprintln \"T:%d:${late_who%d(%s())} ${late_who%d(%s())}\"", g.n, pr[0], g.n, g.n, pr[1], g.n, pr[0])
+			}
+			return fmt.Sprintf("println \"T:%d:${who_of_%s(%s())} ${who_of_%s(%s())}\"", g.n, strings.ToLower(pr[0]), pr[1], strings.ToLower(pr[0]), pr[0])
+		}
+		return fmt.Sprintf("println \"T:%d:lit\"", g.n)
+	case k == 59:
+		// invalid: a using in an input that fails afterwards
+		if len(g.usables) > 0 {
+			u := Pick(g.r, g.usables)
+			g.ghostUse = append(g.ghostUse, u[strings.Index(u, "::")+2:])
+			return fmt.Sprintf("using %s\nundefined_function_%d(1)", u, g.n)
+		}
+		return fmt.Sprintf("println \"T:%d:lit\"", g.n)
+	case k == 60:
+		// a call of a method only a rejected input imported
+		if len(g.ghostUse) > 0 {
+			return fmt.Sprintf("println \"T:ghostuse:${%s()}\"", Pick(g.r, g.ghostUse))
+		}
+		return fmt.Sprintf("println \"T:%d:lit\"", g.n)
 	case k == 52:
 		mx := g.fresh("Mx")
 		g.mixins = append(g.mixins, mx)
@@ -354,7 +397,7 @@ func (*c27Engine) Generate(seed uint64, tier string) *Case {
 	r := NewRand(seed)
 	g := &replGen{r: r}
 	if r.Chance(0.8) {
-		names := []string{"methods", "classes", "values", "ivars", "circular", "throwers", "using", "ghosts", "closures", "typedefs", "typedefs", "mixins", "mixins"}
+		names := []string{"methods", "classes", "values", "ivars", "circular", "throwers", "using", "ghosts", "closures", "typedefs", "typedefs", "mixins", "mixins", "inherit", "inherit", "rejusing"}
 		for i := 0; i < r.Range(1, 3); i++ {
 			g.pool = append(g.pool, replThemes[Pick(r, names)]...)
 		}
@@ -379,7 +422,11 @@ func (*c27Engine) Generate(seed uint64, tier string) *Case {
 			})
 		}
 		var script []string
-		switch r.Intn(11) {
+		switch r.Intn(12) {
+		case 11:
+			// a caller through a parent-typed parameter is compiled after a rejected input: the
+			// subclass (known before the rejected input) must still be dispatched to
+			script = []string{"class Spa\n  def who: Int\n    1\n  end\nend", "class Spb < Spa\n  def who: Int\n    2\n  end\nend", invalid(), "def swho(x: Spa): Int\n  x.who\nend", "println \"T:s18:${swho(Spb())} ${swho(Spa())}\""}
 		case 10:
 			// a class with a mixin is reopened after a rejected input
 			script = []string{"mixin Smx\n  def sgreet: Int\n    7\n  end\nend", "class Spm\n  include Smx\n  def sown: Int\n    1\n  end\nend", "println \"T:s16:${Spm().sgreet}\"", invalid(), "class Spm\n  def sextra: Int\n    2\n  end\nend", "println \"T:s17:${Spm().sgreet + Spm().sextra}\""}
